@@ -322,27 +322,87 @@ class _A1:
             violations.append((node, what, "+".join(sorted(missing))))
 
 
-def _structural_check_preprocess(repo: Repo, res: RuleResult):
-    f = repo.func(CORE, "GroupBy._preprocess_arguments")
-    txt = " ; ".join(norm(s) for s in walk_no_nested(f.node) if isinstance(s, ast.stmt))
-    checks = {
-        "values normalised": "convert_data_to_arr_list_and_keys(values)" in txt,
-        "boolean mask included in the check": "is_bool_dtype(mask)" in txt and "mask]" in txt,
-        "mutual length/index validation": "_validate_input_lengths_and_indexes(to_check)" in txt,
-        "length compared with the keys": "!= len(self)" in txt,
-        "index compared with the key index": "self._key_index.equals(common_index)" in txt,
-    }
-    for k, ok in checks.items():
-        if ok:
-            res.ok(f, f.node, f"_preprocess_arguments: {k}", "")
+def _raising_ifs(f: Func):
+    for n in ast.walk(f.node):
+        if isinstance(n, ast.If) and any(isinstance(s, ast.Raise) for s in n.body):
+            yield n
+
+
+def _len_derived_names(f: Func) -> Set[str]:
+    """locals holding lengths (or a collection of lengths) of the inputs: x = len(a), set(map(len, xs)), {len(a) for ..}"""
+    out: Set[str] = set()
+    for n in ast.walk(f.node):
+        if isinstance(n, ast.Assign):
+            has_len = any(isinstance(x, ast.Name) and x.id == "len" for x in ast.walk(n.value))
+            if has_len:
+                for t in n.targets:
+                    for x in ast.walk(t):
+                        if isinstance(x, ast.Name):
+                            out.add(x.id)
+                        if isinstance(x, ast.Subscript) and isinstance(x.value, ast.Name):
+                            out.add(x.value.id)
+    return out
+
+
+def _leaf_validator_checks(repo: Repo, a: "_A1", res: RuleResult):
+    """The validators the must-pass-through analysis relies on really compare and really raise."""
+    # 1. the central validator establishes LEN and IDX for values and for a boolean mask on every normal exit
+    pre = repo.func(CORE, "GroupBy._preprocess_arguments")
+    for q in ("values", "mask"):
+        v, ef = a.analyze(pre, q)
+        construct = f"_preprocess_arguments({q}): compared with the keys"
+        missing = {"LEN", "IDX"} - ef
+        if v or missing:
+            what = "+".join(sorted(missing)) if missing else "consumed before validation"
+            res.bad(pre, pre.node, construct,
+                    f"the central validator does not establish {what.replace('LEN', 'the length comparison').replace('IDX', 'the index comparison')} "
+                    f"with the group keys for {q!r} on every path that returns normally")
         else:
-            res.bad(f, f.node, f"_preprocess_arguments: {k}", "the central validator no longer performs this comparison")
+            res.ok(pre, pre.node, construct, "length and pandas index compared with the keys (raise on mismatch) on every normal exit")
+    # 2. mutual validation: more than one distinct length -> raise; two different indexes -> raise
+    mv = repo.func(CORE, MUTUAL)
+    lens = _len_derived_names(mv)
+    len_ok = idx_ok = False
+    for n in _raising_ifs(mv):
+        names = {x.id for x in ast.walk(n.test) if isinstance(x, ast.Name)}
+        if (names & lens or "len" in names) and any(isinstance(x, ast.Compare) for x in ast.walk(n.test)):
+            len_ok = True
+        if any(isinstance(x, ast.Call) and isinstance(x.func, ast.Attribute) and x.func.attr == "equals" for x in ast.walk(n.test)):
+            idx_ok = True
+    for ok, what in ((len_ok, "raises when the inputs have more than one distinct length"),
+                     (idx_ok, "raises when two inputs carry different pandas indexes")):
+        if ok:
+            res.ok(mv, mv.node, f"{MUTUAL}: {what}", "")
+        else:
+            res.bad(mv, mv.node, f"{MUTUAL}: {what}",
+                    "the mutual validator no longer performs this comparison: every operation that relies on it accepts "
+                    "misaligned inputs")
+    # 3. the alignment decorator: lengths of the named arguments compared, raise on mismatch; pandas indexes compared
+    dec = repo.mod("util").functions.get("check_data_inputs_aligned.decorator.wrapper")
+    if dec is None:
+        raise AnalysisError("A1: anchor vanished: util.check_data_inputs_aligned.decorator.wrapper")
+    lens = _len_derived_names(dec)
+    len_ok = idx_ok = False
+    for n in _raising_ifs(dec):
+        names = {x.id for x in ast.walk(n.test) if isinstance(x, ast.Name)}
+        if (names & lens) and any(isinstance(x, ast.Compare) for x in ast.walk(n.test)):
+            len_ok = True
+        if any(isinstance(x, ast.Call) and isinstance(x.func, ast.Attribute) and x.func.attr == "equals" for x in ast.walk(n.test)):
+            idx_ok = True
+    for ok, what in ((len_ok, "raises when the named arguments differ in length"),
+                     (idx_ok, "raises when positional pandas arguments carry different indexes")):
+        if ok:
+            res.ok(dec, dec.node, f"check_data_inputs_aligned: {what}", "")
+        else:
+            res.bad(dec, dec.node, f"check_data_inputs_aligned: {what}",
+                    "the alignment decorator no longer performs this comparison: every entry point that relies on it accepts "
+                    "misaligned inputs")
 
 
 def rule_A1(repo: Repo) -> RuleResult:
     res = RuleResult("A1", "every array parameter of every public operation is validated against the keys before it is consumed")
     a = _A1(repo)
-    _structural_check_preprocess(repo, res)
+    _leaf_validator_checks(repo, a, res)
     n = 0
     for name, m in sorted(a.methods.items()):
         if name.startswith("_"):
